@@ -40,6 +40,8 @@ type schedSpec struct {
 	name    string
 	preload string // fresh | lowcap-idle | lowcap-busy | hot
 	reqs    []reqSpec
+	maxP    int  // > 0: cap on the preemption bound for this scenario (4 threads)
+	drain   bool // a 4th thread resolves the two promises the pre-load left unfinished (Fail, then Pass)
 }
 
 type schedState struct {
@@ -47,6 +49,8 @@ type schedState struct {
 	mainOver    bool
 	finalFlying int64
 	outstanding int // left unfinished by the pre-load
+	wantFinal   int // expected in-flight count at quiescence
+	preloadErr  string
 	preShed     bool
 	preOver     bool
 }
@@ -80,8 +84,8 @@ func schedBody(sp schedSpec) func() {
 		})
 		s := load.NewAdaptiveShedder(load.WithWindow(schedWindow), load.WithBuckets(schedBuckets), load.WithCpuThreshold(cpuThreshold))
 		// ---- pre-load (main thread alone: deterministic) ----
+		var ps, kept []load.Promise
 		if sp.preload != "fresh" {
-			var ps []load.Promise
 			for i := 0; i < 12; i++ {
 				p, err := s.Allow()
 				if err != nil {
@@ -99,6 +103,7 @@ func schedBody(sp schedSpec) func() {
 				p.Fail()
 			}
 			st.outstanding = keep
+			kept = ps[len(ps)-keep:]
 			vsched.Advance(schedWindow / schedBuckets)
 			if sp.preload == "hot" {
 				st.mainOver = true
@@ -110,9 +115,23 @@ func schedBody(sp schedSpec) func() {
 			}
 		}
 		if f := load.VerifFlying(s); f != int64(st.outstanding) {
-			panic(fmt.Sprintf("harness: pre-load left %d in flight, expected %d", f, st.outstanding))
+			st.preloadErr = fmt.Sprintf("after the sequential pre-load (12 admitted, %d resolved) the in-flight counter is %d, expected %d", 12-st.outstanding, f, st.outstanding)
+			vsched.SetUser(st)
+			return
 		}
+		st.wantFinal = st.outstanding
 		var wg vsched.WaitGroup
+		if sp.drain && len(kept) == 2 {
+			st.wantFinal = 0
+			wg.Add(1)
+			vsched.GoNamed("drain", false, func() {
+				defer wg.Done()
+				kept[0].Fail()
+				vsched.Log("dr 0")
+				kept[1].Pass()
+				vsched.Log("dr 1")
+			})
+		}
 		for i := range sp.reqs {
 			i := i
 			rq := sp.reqs[i]
@@ -173,6 +192,9 @@ func schedCheck(sp schedSpec) func(e *vsched.Exec) vx.Verdict {
 		if st == nil {
 			return vx.Verdict{Class: "harness-no-state", Msg: "body did not finish"}
 		}
+		if st.preloadErr != "" {
+			return vx.Verdict{Class: "sched-flying-leak", Msg: st.preloadErr}
+		}
 		n := len(sp.reqs)
 		pos := map[string]int{} // "<kind> <i>" -> log position
 		cpu := make([]string, n)
@@ -192,12 +214,12 @@ func schedCheck(sp schedSpec) func(e *vsched.Exec) vx.Verdict {
 				res[i] = f[0]
 			}
 		}
-		if st.finalFlying != int64(st.outstanding) {
+		if st.finalFlying != int64(st.wantFinal) {
 			cls := "sched-flying-leak"
-			if st.finalFlying < int64(st.outstanding) {
+			if st.finalFlying < int64(st.wantFinal) {
 				cls = "sched-flying-undercount"
 			}
-			return vx.Verdict{Class: cls, Msg: fmt.Sprintf("at quiescence the in-flight counter is %d, the pre-load left %d unfinished and every request thread resolved its promise (log %v)", st.finalFlying, st.outstanding, e.Log())}
+			return vx.Verdict{Class: cls, Msg: fmt.Sprintf("at quiescence the in-flight counter is %d; %d admitted-but-unfinished requests remain (every request thread resolved its promise; log %v)", st.finalFlying, st.wantFinal, e.Log())}
 		}
 		before := func(a, b string) bool { // a logged before b (a must exist)
 			pa, ok := pos[a]
@@ -232,9 +254,16 @@ func schedCheck(sp schedSpec) func(e *vsched.Exec) vx.Verdict {
 					return vx.Verdict{Class: "sched-shed-cpu-under-not-hot", Msg: fmt.Sprintf("request %d was shed with the CPU under the threshold; an earlier Allow saw it over: %v, another Allow was being shed: %v (log %v)", b, sawOver, shedding, e.Log())}
 				}
 			}
-			possible := st.outstanding
+			cb := pos[fmt.Sprintf("c %d", b)]
+			doneBefore := func(k string) bool { p, ok := pos[k]; return ok && p < cb }
+			possible := 0
+			for k := 0; k < st.outstanding; k++ { // pre-loaded promises: in flight until the drain thread resolved them
+				if !doneBefore(fmt.Sprintf("dr %d", k)) {
+					possible++
+				}
+			}
 			for a := 0; a < n; a++ {
-				if a != b && before(fmt.Sprintf("c %d", a), sb) && !(pos[fmt.Sprintf("d %d", a)] < pos[fmt.Sprintf("c %d", b)] && hasKey(pos, fmt.Sprintf("d %d", a))) {
+				if a != b && before(fmt.Sprintf("c %d", a), sb) && !doneBefore(fmt.Sprintf("d %d", a)) {
 					possible++
 				}
 			}
@@ -251,30 +280,34 @@ func schedCheck(sp schedSpec) func(e *vsched.Exec) vx.Verdict {
 	}
 }
 
-func hasKey(m map[string]int, k string) bool { _, ok := m[k]; return ok }
-
 func scenarios(cfg *vlib.Config) []vx.Scenario {
 	bucket := schedWindow / schedBuckets
 	specs := []schedSpec{
-		{"fresh-under-ppf", "fresh", []reqSpec{{cpu: "under", pass: true}, {cpu: "under", pass: true}, {cpu: "under"}}},
-		{"idle-under-pfp", "lowcap-idle", []reqSpec{{cpu: "under", pass: true}, {cpu: "under"}, {cpu: "under", pass: true}}},
-		{"busy-under-fff", "lowcap-busy", []reqSpec{{cpu: "under"}, {cpu: "under"}, {cpu: "under"}}},
-		{"idle-over-ppf", "lowcap-idle", []reqSpec{{cpu: "over", pass: true}, {cpu: "over", pass: true}, {cpu: "over"}}},
-		{"idle-choice-pfp", "lowcap-idle", []reqSpec{{cpu: "choice", pass: true}, {cpu: "choice"}, {cpu: "choice", pass: true}}},
-		{"busy-mixed-ouu", "lowcap-busy", []reqSpec{{cpu: "over", pass: true}, {cpu: "under"}, {cpu: "under", pass: true}}},
-		{"hot-under-ppf", "hot", []reqSpec{{cpu: "under", pass: true}, {cpu: "under", pass: true}, {cpu: "under"}}},
-		{"idle-over-sleep", "lowcap-idle", []reqSpec{{cpu: "over", pass: true, sleep: bucket}, {cpu: "over", pass: true}, {cpu: "under"}}},
+		{name: "fresh-under-ppf", preload: "fresh", reqs: []reqSpec{{cpu: "under", pass: true}, {cpu: "under", pass: true}, {cpu: "under"}}},
+		{name: "idle-under-pfp", preload: "lowcap-idle", reqs: []reqSpec{{cpu: "under", pass: true}, {cpu: "under"}, {cpu: "under", pass: true}}},
+		{name: "busy-under-fff", preload: "lowcap-busy", reqs: []reqSpec{{cpu: "under"}, {cpu: "under"}, {cpu: "under"}}},
+		{name: "idle-over-ppf", preload: "lowcap-idle", reqs: []reqSpec{{cpu: "over", pass: true}, {cpu: "over", pass: true}, {cpu: "over"}}},
+		{name: "idle-choice-pfp", preload: "lowcap-idle", reqs: []reqSpec{{cpu: "choice", pass: true}, {cpu: "choice"}, {cpu: "choice", pass: true}}},
+		{name: "busy-mixed-ouu", preload: "lowcap-busy", reqs: []reqSpec{{cpu: "over", pass: true}, {cpu: "under"}, {cpu: "under", pass: true}}},
+		{name: "hot-under-ppf", preload: "hot", reqs: []reqSpec{{cpu: "under", pass: true}, {cpu: "under", pass: true}, {cpu: "under"}}},
+		{name: "hot-drain-uo", preload: "hot", drain: true, reqs: []reqSpec{{cpu: "under", pass: true}, {cpu: "over"}}},
+		{name: "idle-over-sleep", preload: "lowcap-idle", reqs: []reqSpec{{cpu: "over", pass: true, sleep: bucket}, {cpu: "over", pass: true}, {cpu: "under"}}},
 	}
 	if cfg.Thorough() {
 		specs = append(specs,
-			schedSpec{"hot-choice-fpf", "hot", []reqSpec{{cpu: "choice"}, {cpu: "choice", pass: true}, {cpu: "choice"}}},
-			schedSpec{"busy-choice-ppp", "lowcap-busy", []reqSpec{{cpu: "choice", pass: true}, {cpu: "choice", pass: true}, {cpu: "choice", pass: true}}},
-			schedSpec{"idle-over-sleep2", "lowcap-idle", []reqSpec{{cpu: "over", pass: true, sleep: bucket}, {cpu: "over", sleep: time.Second}, {cpu: "under", pass: true}}},
+			schedSpec{name: "hot-drain-uuo", preload: "hot", drain: true, maxP: 2, reqs: []reqSpec{{cpu: "under", pass: true}, {cpu: "under"}, {cpu: "over", pass: true}}},
+			schedSpec{name: "hot-choice-fpf", preload: "hot", reqs: []reqSpec{{cpu: "choice"}, {cpu: "choice", pass: true}, {cpu: "choice"}}},
+			schedSpec{name: "busy-choice-ppp", preload: "lowcap-busy", reqs: []reqSpec{{cpu: "choice", pass: true}, {cpu: "choice", pass: true}, {cpu: "choice", pass: true}}},
+			schedSpec{name: "idle-over-sleep2", preload: "lowcap-idle", reqs: []reqSpec{{cpu: "over", pass: true, sleep: bucket}, {cpu: "over", sleep: time.Second}, {cpu: "under", pass: true}}},
 		)
 	}
 	var out []vx.Scenario
 	for _, sp := range specs {
-		out = append(out, vx.Scenario{Name: "sched/" + sp.name, Body: schedBody(sp), Check: schedCheck(sp)})
+		sc := vx.Scenario{Name: "sched/" + sp.name, Body: schedBody(sp), Check: schedCheck(sp)}
+		if sp.maxP > 0 {
+			sc.SetBound, sc.P, sc.T = true, sp.maxP, 1
+		}
+		out = append(out, sc)
 	}
 	return out
 }
